@@ -7,6 +7,8 @@ groups = collections.defaultdict(list)
 for f in sorted(glob.glob(f"/verif/replays/{prop}/{pref}*.json")):
     j = json.load(open(f))
     d = j.get("detail") or ""
+    d = re.sub(r"history \[.*?\]: ", "", d, flags=re.S) if d.startswith("history [") else d
+    d = re.sub(r"^(uninterrupted )?[a-z\-\(\)]+( interrupted at poll \d+)?: ", "", d) if j.get("mode") == "c11" and j["kind"] == "panic" else d
     if j["kind"] == "panic":
         sig = "panic: " + re.sub(r"\d+", "N", d.split(" @ ")[0])[:90] + " @ " + d.split(" @ ")[-1].split(":")[0]
     else:
